@@ -32,8 +32,10 @@ def c20(ctx: Ctx):
         write_ndjson(cases, [ctx.replay["violation"]["c"]])
     else:
         maxmut, stride = (1, 1) if ctx.tier == "quick" else (2, 32)
-        cfg = ("SPECIFICATION Spec\nCONSTANTS NNodes = %d\n MaxMut = %d\n PairStride = %d\n Seed = %d\nINVARIANT Emit\nCHECK_DEADLOCK FALSE\n"
-               % (nn, maxmut, stride, ctx.seed))
+        sparse_ops = ('{"delete", "to_null", "to_empty_obj"}' if ctx.tier == "quick" else
+                      '{"to_null", "to_bool", "to_num", "to_str", "to_arr", "to_obj", "to_empty_obj", "to_empty_str", "delete", "dup_key_other_type", "nest_deep", "huge_number", "ref_dangling", "ref_hash_only", "ref_empty"}')
+        cfg = ("SPECIFICATION Spec\nCONSTANTS NNodes = %d\n MaxMut = %d\n PairStride = %d\n Seed = %d\n SparseNodes = 30\n SparseOps = %s\nINVARIANT Emit\nCHECK_DEADLOCK FALSE\n"
+               % (nn, maxmut, stride, ctx.seed, sparse_ops))
         open(ctx.spec("Gen_C20_run.cfg"), "w").write(cfg)
         ctx.tlc("Gen_C20", "Gen_C20_run.cfg", label="F generate mutation sequences (BFS)", timeout=2400)
         n = ctx.unquote(ctx.spec("cases.ndjson"), cases)
